@@ -13,11 +13,6 @@
 //   (iv)  all syndromes zero => Ok and nothing written.
 use super::*;
 
-static mut XLOC: [u8; 2] = [0; 2];
-static mut EVAL: [u8; 2] = [0; 2];
-static mut NE: usize = 0;
-static mut NONZERO: bool = false;
-
 // stand-in for super::primitive_element_evaluation: any syndromes, any verdict
 fn pee_stub<T, I>(_c: I, out: &mut [GF]) -> bool
 where
@@ -29,144 +24,96 @@ where
         out[i] = GF(kani::any());
         i += 1;
     }
-    unsafe { NONZERO }
+    kani::any()
 }
 
-// stand-in for super::chien_search: some number of non-zero, pairwise distinct roots
+// stand-in for super::chien_search: at most one non-zero root
 fn chien_stub<T: Into<GF> + Copy>(_c: &[T]) -> Vec<GF> {
-    let m: usize = kani::any();
-    kani::assume(m <= 2);
     let a: u8 = kani::any();
-    let b: u8 = kani::any();
-    kani::assume(a != 0 && b != 0 && a != b);
+    kani::assume(a != 0);
     let mut v = Vec::new();
-    if m >= 1 {
+    if kani::any() {
         v.push(GF(a));
-    }
-    if m >= 2 {
-        v.push(GF(b));
     }
     v
 }
 
-fn check_decode_gen(stride: usize) {
-    let dl: usize = kani::any();
-    let el: usize = kani::any();
-    kani::assume(dl >= 1 && dl <= 5 && el >= 2 && el <= 6);
-    let mut dbuf: [u8; 5] = kani::any();
-    let mut ebuf: [u8; 6] = kani::any();
+fn check_decode_gen<const DL: usize, const EL: usize>(stride: usize) {
+    let mut dbuf: [u8; DL] = kani::any();
+    let mut ebuf: [u8; EL] = kani::any();
     let d0 = dbuf;
     let e0 = ebuf;
-    let n_data = (dl + stride - 1) / stride;
-    let n_error = (el + stride - 1) / stride;
+    let n_data = (DL + stride - 1) / stride;
+    let n_error = (EL + stride - 1) / stride;
     let err_len = n_error;
-    kani::assume(err_len >= 2);
     let n = n_data + n_error;
-    let nonzero: bool = kani::any();
-    let ne: usize = kani::any();
-    kani::assume(ne >= 1 && ne <= err_len / 2 && ne <= 2);
     let x0: u8 = kani::any();
-    let x1: u8 = kani::any();
     let v0: u8 = kani::any();
-    let v1: u8 = kani::any();
-    kani::assume(x0 != 0 && x1 != 0 && x0 != x1);
-    unsafe {
-        NONZERO = nonzero;
-        NE = ne;
-        XLOC = [x0, x1];
-        EVAL = [v0, v1];
-    }
+    kani::assume(x0 != 0);
     let locator_fails: bool = kani::any();
-    // F: a locator of degree ne (monic, arbitrary coefficients) or an error
+    let l0: u8 = kani::any();
+    // F: a locator of degree 1 (monic, arbitrary coefficient) or an error
     let f = |_syn: &[GF]| -> Result<Vec<GF>, ErrorDecodingError> {
         if locator_fails {
             return Err(ErrorDecodingError::TooManyErrors);
         }
         let mut w = Vec::new();
-        let mut i = 0;
-        while i < unsafe { NE } {
-            w.push(GF(kani::any()));
-            i += 1;
-        }
+        w.push(GF(l0));
         w.push(GF(1));
         Ok(w)
     };
-    // G: turns the roots into error locations and leaves the error values in syn[..e]
+    // G: turns the root into the error location X and leaves the error value in syn[0]
     let g = |x_loc: &mut [GF], _lambda: &[GF], syn: &mut [GF]| {
-        let mut i = 0;
-        while i < x_loc.len() {
-            unsafe {
-                x_loc[i] = GF(XLOC[i]);
-                syn[i] = GF(EVAL[i]);
-            }
-            i += 1;
-        }
+        x_loc[0] = GF(x0);
+        syn[0] = GF(v0);
     };
-    let r = decode_gen(&mut dbuf[..dl], &mut ebuf[..el], stride, err_len, f, g);
-    // what the block looks like afterwards
-    if !nonzero {
-        assert!(r.is_ok());
-    }
-    let mut changed_ok = true;
-    if r.is_ok() && nonzero {
-        kani::cover!(true, "a correction was applied");
-        // expected: element n-1-log(X_k) of the block changes by EVAL[k]
-        let mut k = 0;
-        let mut exp_d = d0;
-        let mut exp_e = e0;
-        while k < ne {
-            let i = GF(unsafe { XLOC[k] }).log();
-            assert!(i < n);
+    let r = decode_gen(&mut dbuf[..], &mut ebuf[..], stride, err_len, f, g);
+    // unchanged?
+    let mut same = true;
+    let mut j = 0;
+    while j < DL { if dbuf[j] != d0[j] { same = false; } j += 1; }
+    let mut j = 0;
+    while j < EL { if ebuf[j] != e0[j] { same = false; } j += 1; }
+    if r.is_ok() {
+        // either there was nothing to correct, or element n-1-log(X) of the block changed by the error value
+        let i = GF(x0).log();
+        let mut corrected = false;
+        if i < n {
             let pos = n - 1 - i;
+            let mut exp_d = d0;
+            let mut exp_e = e0;
             if pos < n_data {
-                exp_d[pos * stride] ^= unsafe { EVAL[k] };
+                exp_d[pos * stride] ^= v0;
             } else {
-                exp_e[(pos - n_data) * stride] ^= unsafe { EVAL[k] };
+                exp_e[(pos - n_data) * stride] ^= v0;
             }
-            k += 1;
+            corrected = true;
+            let mut j = 0;
+            while j < DL { if dbuf[j] != exp_d[j] { corrected = false; } j += 1; }
+            let mut j = 0;
+            while j < EL { if ebuf[j] != exp_e[j] { corrected = false; } j += 1; }
         }
-        let mut j = 0;
-        while j < 5 {
-            if dbuf[j] != exp_d[j] { changed_ok = false; }
-            j += 1;
-        }
-        let mut j = 0;
-        while j < 6 {
-            if ebuf[j] != exp_e[j] { changed_ok = false; }
-            j += 1;
-        }
-        assert!(changed_ok);
+        assert!(same || corrected);
+        kani::cover!(!same, "a correction was applied");
     } else {
-        // Ok without errors, or Err: nothing outside... an Err may leave partial corrections only
-        // at strided positions; with all syndromes zero nothing is written at all
-        if !nonzero {
-            let mut j = 0;
-            while j < 5 { assert!(dbuf[j] == d0[j]); j += 1; }
-            let mut j = 0;
-            while j < 6 { assert!(ebuf[j] == e0[j]); j += 1; }
-        }
-        // frame on every path: positions that are not multiples of the stride never change
-        let mut j = 0;
-        while j < 5 { if j % stride != 0 || j >= dl { assert!(dbuf[j] == d0[j]); } j += 1; }
-        let mut j = 0;
-        while j < 6 { if j % stride != 0 || j >= el { assert!(ebuf[j] == e0[j]); } j += 1; }
+        // an error return leaves the word alone
+        assert!(same);
     }
 }
 
-#[kani::proof]
-#[kani::stub(super::super::primitive_element_evaluation, pee_stub)]
-#[kani::stub(super::super::chien_search, chien_stub)]
-#[kani::unwind(8)]
-fn decode_gen_plumbing_stride1() { check_decode_gen(1); }
-
-#[kani::proof]
-#[kani::stub(super::super::primitive_element_evaluation, pee_stub)]
-#[kani::stub(super::super::chien_search, chien_stub)]
-#[kani::unwind(8)]
-fn decode_gen_plumbing_stride2() { check_decode_gen(2); }
-
-#[kani::proof]
-#[kani::stub(super::super::primitive_element_evaluation, pee_stub)]
-#[kani::stub(super::super::chien_search, chien_stub)]
-#[kani::unwind(8)]
-fn decode_gen_plumbing_stride3() { check_decode_gen(3); }
+macro_rules! dg {
+    ($name:ident, $dl:expr, $el:expr, $stride:expr) => {
+        #[kani::proof]
+        #[kani::stub(super::super::primitive_element_evaluation, pee_stub)]
+        #[kani::stub(super::super::chien_search, chien_stub)]
+        #[kani::unwind(8)]
+        fn $name() { check_decode_gen::<$dl, $el>($stride); }
+    };
+}
+// (data slice length, error slice length, stride): block 0 and block 1 of a 2-block symbol, a 3-block
+// symbol with ragged data (the 144x144 shape), and the single-block case
+dg!(decode_gen_s1_d3_e2, 3, 2, 1);
+dg!(decode_gen_s2_d4_e4, 4, 4, 2);
+dg!(decode_gen_s2_d3_e3, 3, 3, 2);
+dg!(decode_gen_s3_d4_e5, 4, 5, 3);
+dg!(decode_gen_s3_d5_e4, 5, 4, 3);
